@@ -1,3 +1,4 @@
+import CantoVerif.Model.Abi
 import CantoVerif.Driver.Common
 import CantoVerif.Spec.Erc20
 /-!
@@ -99,7 +100,29 @@ def parseLog (e : String) : Option Log :=
   | [em, nt, it, f, t, a] =>
     some { emitter := em, nTopics := natOf nt, isTransfer := b1 it, sender := f, to := t,
            amount := if a == "-" then none else some (natOf a) }
+  | [em, nt, it, f, t, a, _] =>
+    some { emitter := em, nTopics := natOf nt, isTransfer := b1 it, sender := f, to := t,
+           amount := if a == "-" then none else some (natOf a) }
   | _ => none
+
+def hexNibE (c : Char) : Nat :=
+  if c.isDigit then c.toNat - '0'.toNat else if 'a' ≤ c && c ≤ 'f' then c.toNat - 'a'.toNat + 10 else 0
+
+def hexBytesE (s : String) : List Nat :=
+  let rec go : List Char → List Nat
+    | a :: b :: r => (hexNibE a * 16 + hexNibE b) :: go r
+    | _ => []
+  go s.toList
+
+/-- the amount of a `Transfer` log against the Lean model of the contract ABI (`Model/Abi.lean`): the data the real decoder
+accepted under the layout `(uint256)` decodes in the model to the same amount, the data it refused does not decode -/
+def abiLogOkE (tok : String) : Bool :=
+  match tok.splitOn "/" with
+  | [_, _, _, _, _, a, h] =>
+    (match Abi.decodeTuple [.uint256] (hexBytesE h) with
+     | some [.uint n] => a != "-" && natOf a == n
+     | _ => a == "-")
+  | _ => true
 
 def parseOp (kind : String) (kv : KV) : Option DOp :=
   match kind with
@@ -364,7 +387,8 @@ def processLine (acc : Acc) (line : String) : Acc :=
           (if m.st.sendDefault != implPost.st.sendDefault || !mapEq m.st.sendOverride implPost.st.sendOverride then ["send"] else []) ++
           (if m.st.mn != implPost.st.mn then ["nonce"] else []) ++
           (match m.tok with | some t => if tokEq t implPost.evm then [] else ["token"] | none => []) ++
-          (if m.ok == implOk && m.evmBad && akv.get "evm" != "?" then ["evm"] else [])
+          (if m.ok == implOk && m.evmBad && akv.get "evm" != "?" then ["evm"] else []) ++
+          (if kind == "hook" && !(listOf (akv.get "logs")).all abiLogOkE then ["abi"] else [])
         -- what takes a world out of the scope of C03 (`HOpOK`): an accepted deviation, a forged receipt, a
         -- self-destruct.  A forged receipt or an accepted deviation is itself already outside the honest world (the model's
         -- own transition fails `c03_external` on a bare hook: last example of Props/C03Monitors.lean), so the transition
